@@ -307,7 +307,7 @@ func runFB(c *FBCase) (bool, []string, error) {
 	case <-time.After(10 * time.Second):
 		close(tr.gate)
 		wg.Wait()
-		return false, cls, fmt.Errorf("harness: the first call never reached the transport")
+		return false, cls, fmt.Errorf("%s the first call never reached the transport", vlib.InfraMarker)
 	}
 	wg.Add(1)
 	go func() {
